@@ -1,3 +1,5 @@
+//go:build verif_all || verif_c06
+
 package driver
 
 // Injected by the /verif overlay for check C06 (never committed to the
